@@ -4,6 +4,6 @@ From SV Require Import Base.Prelude Base.Bytes Model.Murmur Model.PartKey.
 Require Extraction.
 Require Import ExtrOcamlBasic ExtrOcamlString.
 Extraction Language OCaml.
-Extraction "../ocaml/c03/model.ml" hash_one feed murmur3_token_spec cdc_token_spec token_spec
-  deser_pk_indexes pk_new encoded_pk_chunks ps_calculate_token ps_compute_partition_key
-  token_for_partition_key spec_serialized_key spec_components spec_token.
+Extraction "../ocaml/c03/model.ml" hash_one feed token_spec murmur3_token_spec cdc_token_spec
+  pk_new encoded_pk_chunks ps_calculate_token ps_compute_partition_key token_for_partition_key
+  key_okb prop_token_ok prop_pk_token_ok spec_token spec_serialized_key spec_components.
